@@ -5,11 +5,12 @@ from __future__ import annotations
 
 import ast
 
-from ..alg import Poly, Q, MQ
+from ..alg import Poly, Q, MQ, is_zero
+from ..xarray import XArray
 from ..elems import ElemLib, GAUSS, topology
 from ..gausslib import GaussLib, SHAPE_FUNCS, REF_MEASURE, inside, SHAPE_DIM
 from ..geom import Geometry, rule_exact_on
-from ..repo import dotted, AnalysisError
+from ..repo import dotted, AnalysisError, norm_text as norm_text_
 
 GE = "EasyFEA.FEM._group_elem._GroupElem"
 
@@ -37,6 +38,8 @@ def run(ctx):
     repo = ctx.repo
     gl = GaussLib(repo)
     lib = ElemLib(repo)
+    ctx.attempt(integer_coordinates_rule, ctx, lib)
+    ctx.attempt(embedding_dimension_rule, ctx)
 
     r1 = ctx.rule("R7.1", "every tabulated rule: points inside the reference element, weights sum to the reference measure", min_instances=16)
     r2 = ctx.rule("R7.2", "exactness degree of every tabulated rule >= the documented order", min_instances=16)
@@ -293,3 +296,89 @@ def weights_enter_rule(ctx):
         else:
             for c in calls:
                 r.ok(f"{f.qualname}: unweighted Jacobian used without a Gauss-point sum")
+
+
+def integer_coordinates_rule(ctx, lib):
+    """R7.9: 'lengths, areas, volumes ... are exact': the geometric chain does not inherit an integer type from the node
+    coordinates it is given.  Get_F_e_pg is interpreted on a TRI3 tilted in space whose node coordinates are an
+    INTEGER array ((0,0,0), (3,0,4), (1,1,0)): the coordinates rebased in the element's plane are not integers, so a
+    buffer that copies the type of the input truncates them (numpy does so silently) -- the Jacobian must equal the
+    one obtained from the same coordinates held as floats."""
+    from ..femchain import Chain
+    from ..xarray import XTruncation
+    from ..xeval import Uninterpretable
+
+    repo = ctx.repo
+    r = ctx.rule("R7.9", "integer-typed node coordinates: the Jacobian of an element tilted in space equals the one of the same coordinates held as floats (no buffer inherits the integer type)", min_instances=2)
+    f = repo.method("EasyFEA.FEM._group_elem._GroupElem", "Get_F_e_pg")
+    r.instance(fn=f.qualname)
+    pts = [[0, 0, 0], [3, 0, 4], [1, 1, 0]]
+
+    ge = repo.cls("EasyFEA.FEM._group_elem._GroupElem")
+
+    def jac(kind):
+        """the coordinates enter the group the way a caller hands them over: through the coord setter, read back by the getter"""
+        ch = Chain(lib, "TRI3", fe=True)
+        a = ch.obj.attrs
+        a["inDim"] = 3
+        del a["coord"]
+        a.update(Ncoords=3, nodes=XArray((3,), [0, 1, 2]), _InitMatrix=lambda *x, **k: None)
+        ch.I.call_function(ge.setters["coord"], [XArray((3, 3), [x for row in pts for x in row], kind)], self_obj=ch.obj)
+        return XArray.from_nested(ch.F())
+
+    ref = jac(None)
+    try:
+        got = jac("i")
+        same = got.shape == ref.shape and all(is_zero(a - b) for a, b in zip(got.data, ref.data))
+        bad = None if same else "the Jacobian differs from the one of the same coordinates held as floats"
+    except (Uninterpretable, XTruncation) as e:
+        if "integer type" not in str(e):
+            raise
+        bad = str(e).split(": ", 1)[-1] if ": " in str(e) else str(e)
+    # the constructor stores the coordinates with the same conversion: its storing expression evaluated on an integer array
+    init = ge.methods["__init__"]
+    r.instance(fn=init.qualname)
+    stores = [n for n in ast.walk(init.node) if isinstance(n, ast.Assign) and any(isinstance(t, ast.Attribute) and t.attr == "__coord" for t in n.targets)]
+    if not stores:
+        raise AnalysisError("R7.9: _GroupElem.__init__ no longer stores self.__coord")
+    from ..xeval import Interp as _I
+
+    II = _I(repo)
+    env = {"coordinates": XArray((3, 3), [x for row in pts for x in row], "i"), "nodes": XArray((3,), [0, 1, 2], "i")}
+    val = II.eval_expr(stores[-1].value, env, init.file, init.module)
+    if isinstance(val, XArray) and val.dtype == "i":
+        r.fail(init.qualname, "integer-coordinates:init", init.file, stores[-1].lineno, "_GroupElem.__init__", f"`{norm_text_(stores[-1])}` keeps the integer type of the coordinates it is given: every buffer copied from self.coord truncates what is written into it (TRI3 (0,0,0), (2,0,1), (0,3,1) as integers has area 3.0 instead of 3.5)")
+    else:
+        r.ok("_GroupElem.__init__ stores the coordinates as floats")
+    if bad:
+        r.fail(f.qualname, "integer-coordinates", f.file, f.lineno, "Get_F_e_pg", f"TRI3 (0,0,0), (3,0,4), (1,1,0) given as an integer array: {bad} (the area of that triangle is computed from truncated plane coordinates)")
+    else:
+        r.ok("TRI3 tilted in space, integer node coordinates: Jacobian as for float coordinates")
+
+
+def embedding_dimension_rule(ctx):
+    """R7.10: the embedding dimension read from the coordinates (it selects the branch of the geometric chain that
+    projects lower-dimensional elements onto their own axes): 3 as soon as some z differs from 0, else 2 as soon as
+    some y differs from 0, else 1 -- whatever the SIGN of those coordinates.  The inDim property is interpreted on
+    segment groups lying in each half of each plane."""
+    from ..xeval import Interp, XObj, EnumVal
+
+    repo = ctx.repo
+    ge = repo.cls("EasyFEA.FEM._group_elem._GroupElem")
+    f = ge.methods["inDim"]
+    r = ctx.rule("R7.10", "inDim: 3 iff some z != 0, else 2 iff some y != 0, else 1, for coordinates of either sign", min_instances=8)
+    et_cls = repo.cls("EasyFEA.FEM._utils.ElemType")
+    seg2 = EnumVal(et_cls, "SEG2", repo.enum_members(et_cls.qualname)["SEG2"])
+    cases = [
+        ([[0, 0, 0], [2, 0, 0]], 1), ([[-3, 0, 0], [-1, 0, 0]], 1),
+        ([[0, 0, 0], [1, 2, 0]], 2), ([[0, 0, 0], [1, -2, 0]], 2), ([[0, -1, 0], [4, -3, 0]], 2), ([[0, -1, 0], [0, 3, 0]], 2),
+        ([[0, 0, 0], [1, 0, 2]], 3), ([[0, 0, -1], [1, 0, -2]], 3), ([[0, 1, -1], [1, -1, -2]], 3), ([[0, 0, -1], [0, 0, 1]], 3),
+    ]
+    for pts, want in cases:
+        r.instance(fn=f.qualname)
+        obj = XObj(ge, {"elemType": seg2, "dim": 1, "coord": XArray((2, 3), [Q(x) for row in pts for x in row])})
+        got = Interp(repo).call_function(f, [], self_obj=obj)
+        if got == want:
+            r.ok(f"{pts}: inDim {want}")
+        else:
+            r.fail(f.qualname, f"inDim:{pts}", f.file, f.lineno, "_GroupElem.inDim", f"segment {pts[0]} - {pts[1]}: inDim = {got}, the coordinates span dimension {want}: the Jacobian of the group is taken along the wrong axes (lengths of vertical or oblique segments vanish or shrink)")
